@@ -4,30 +4,41 @@ convergence rule is met.
 A case is a session: a real neural state, a real MetricEvaluator (scripted metric) or ObservableEvaluator
 (scripted stub observable with mean and variance), a real EarlyStopping, both inside real `fit` runs, in
 either callback order.  A Probe placed right before the evaluator records every EpochEnd epoch and the value
-the monitored quantity evaluates to there.
+the monitored quantity evaluates to there.  The monitored values are plain Python floats, plain Python ints,
+numpy float64 and numpy int64 scalars (the type is part of the case), including exact zeros.
   * oracle: an independent reference decision procedure implementing the DOCUMENTED rule (compare M_t with
     M_{t-p}: relative |(M_{t-p}-M_t)/M_{t-p}|, absolute |M_{t-p}-M_t|, variance |M_{t-p}-M_t|/sigma_{t-p};
     stop iff deviation < tolerance; checks only at multiples of the stopper's period and only when p earlier
     evaluations exist) run on the probe's record: no epoch before the last one may satisfy the rule, the
-    run ends by a stop iff the last epoch satisfies it, last_epoch is that epoch.  IEEE semantics for
-    division by zero (values are numpy doubles): nan/inf deviations never / per `<` compare.
+    run ends by a stop iff the last epoch satisfies it, last_epoch is that epoch, and `fit` never raises.
+    Zero cases (M_{t-p} = 0 for `relative`, variance 0 for `variance`) are decided under IEEE semantics in
+    float64: the deviation is inf or nan, which is never below the tolerance.  A decision whose deviation is
+    within 1e-9*max(1,|tol|) of the tolerance without being equal to it is not demanded either way (guard band:
+    a mathematically equal formula may round differently); such sessions are counted, not compared.
   * correspondence: outcome, epochs run, last_epoch, evaluator record vs the extracted Coq model
-    (Callbacks.es_fit / es_construct).
-  * constructor table: criterion strings (stripped, lower-cased), TypeError for variance + MetricEvaluator and
-    for a non-evaluator, ValueError for unknown names; VarianceBasedEarlyStopping == criterion "variance".
+    (Callbacks.es_fit / es_construct) executed at IEEE doubles.
+  * constructor: the statement only says that the variance criterion is REFUSED for plain metrics and that the
+    deprecated class behaves as the variance criterion.  Demanded: variance (any spelling the constructor would
+    normalise) + MetricEvaluator raises (any exception class); the three documented names construct for the
+    evaluator kinds they are documented for; VarianceBasedEarlyStopping constructs for an ObservableEvaluator and
+    raises for a MetricEvaluator, and its runs equal those of EarlyStopping(criterion="variance").  Exception
+    classes, non-evaluators, unknown names, case/white-space tolerance: histogram only ("info:...").
 """
 import json, math, time
 import numpy as np
 from checks import c17 as base
 
 RULE = ("sessions = (evaluator kind metric/observable, callback order evaluator-first/stopper-first, evaluator period 1..4, "
-        "stopper period 1..4, patience 1..5, criterion relative/absolute/variance written with random case and white space, "
-        "tolerance in {0, 1e-3, 0.05, 0.3, 2, inf}, scripted value sequence monotone-converging / oscillating / constant / "
-        "containing zeros / random, variances positive or zero, one or two fit runs of up to 24 epochs without clearing); "
+        "stopper period 1..4, patience 1..5 given as int / numpy.int64 / float, criterion relative/absolute/variance (15% written with "
+        "random case and white space), tolerance in {0, 1e-3, 0.05, 0.3, 2, inf}, scripted value sequence monotone-converging / "
+        "oscillating / constant / containing zeros / plateaus / random, value type float / int / numpy.float64 / numpy.int64 (exact zeros "
+        "in every type), variances positive or zero, one or two fit runs of up to 24 epochs without clearing); "
         "plus the constructor table over 14 criterion spellings x 3 evaluator kinds and the deprecated class; "
         "a session is non-trivial when the rule was evaluated at least once with enough history (stop or not)")
-ASSUMPTIONS = ["monitored values are numpy doubles, so division by zero follows IEEE (a plain Python float 0.0 as M_{t-p} with "
-               "criterion 'relative' raises ZeroDivisionError inside fit; outside the property's rule, not checked)"]
+ASSUMPTIONS = []
+
+VTYPES = {"float": float, "int": lambda x: int(round(x)), "np.float64": np.float64, "np.int64": lambda x: np.int64(int(round(x)))}
+PTYPES = {"int": int, "np.int64": np.int64, "float": float}
 
 CRITS = ["relative", "absolute", "variance"]
 SPELL = ["relative", "absolute", "variance", " Relative ", "ABSOLUTE\n", "\tVariance", "rel", "", "variances", "absolute x",
@@ -46,12 +57,13 @@ def ref_deviation(crit, prev, cur, pvar):
 
 
 def ref_should_stop(hist, p, tol, crit):
-    """documented rule on a history of (value, variance) evaluations"""
+    """documented rule on a history of (value, variance) evaluations; returns (decision, borderline)"""
     if len(hist) < p + 1:
-        return False
+        return False, False
     cur, prev = hist[len(hist) - 1], hist[len(hist) - 1 - p]
-    d = ref_deviation(crit, prev[0], cur[0], prev[1])
-    return bool(d < tol)
+    d = float(ref_deviation(crit, prev[0], cur[0], prev[1]))
+    border = (math.isfinite(d) and math.isfinite(tol) and d != tol and abs(d - tol) <= 1e-9 * max(1.0, abs(tol)))
+    return bool(d < tol), border
 
 
 def spell(rng, crit):
@@ -78,21 +90,29 @@ def session(ctx, spec):
     clock = C["Clock"]()
     vals, vars_ = spec["values"], spec["variances"]
     kw = {"num_samples": 4, "num_chains": 4, "burn_in": 1, "steps": 1}
+    conv = VTYPES[spec.get("vtype", "np.float64")]
+    vconv = float if spec.get("vtype", "np.float64") in ("float", "int") else np.float64
     if spec["ev"] == "metric":
-        fn = lambda state, **k: np.float64(vals[clock.t % len(vals)])
+        fn = lambda state, **k: conv(vals[clock.t % len(vals)])
         ev = MetricEvaluator(pe, {"q": fn})
         probe = C["Probe"](lambda st: (fn(st), np.float64(0.0)))
         read = lambda: [float(x) for x in ev["q"]]
     else:
-        obs = C["StubObs"]("q", clock, [[vals[i % len(vals)], vars_[i % len(vars_)]] for i in range(len(vals) * len(vars_))])
+        obs = C["StubObs"]("q", clock, [[vals[i % len(vals)], vars_[i % len(vars_)]] for i in range(len(vals) * len(vars_))],
+                           conv=conv, vconv=vconv)
         ev = ObservableEvaluator(pe, [obs], **kw)
         wb = C["obs_wouldbe"]([obs], kw)
         probe = C["Probe"](lambda st: (lambda d: (d["q"]["mean"], d["q"]["variance"]))(wb(st)))
         read = lambda: [float(x) for x in ev["q"].means]
+    pgiven = PTYPES[spec.get("ptype", "int")](p)
     if spec.get("deprecated"):
-        ok, es = ctx.call("VarianceBasedEarlyStopping construction", case, lambda: VarianceBasedEarlyStopping(ps, tol, p, ev, "q"))
-    else:
-        ok, es = ctx.call("EarlyStopping construction", case, lambda: EarlyStopping(ps, tol, p, ev, "q", criterion=spec["crit"]))
+        ok, es = ctx.call("VarianceBasedEarlyStopping construction", case, lambda: VarianceBasedEarlyStopping(ps, tol, pgiven, ev, "q"))
+    elif spec["crit"] in CRITS:
+        ok, es = ctx.call("EarlyStopping construction", case, lambda: EarlyStopping(ps, tol, pgiven, ev, "q", criterion=spec["crit"]))
+    else:       # a spelling with other case / white space: whether it is accepted is not part of the property
+        r = base.res(lambda: EarlyStopping(ps, tol, pgiven, ev, "q", criterion=spec["crit"]))
+        base.info(ctx, "criterion written with other case / white space is accepted", r[0] == 0)
+        ok, es = r[0] == 0, (r[1] if r[0] == 0 else None)
     if not ok:
         return
     ev_first = spec["order"] == "ev_first"
@@ -100,7 +120,7 @@ def session(ctx, spec):
     hist = []                   # reference history of evaluations (value, variance)
     want_last = None
     mfits, impl = [], []
-    evaluated = False
+    evaluated = borderline = False
     for (start, end) in spec["fits"]:
         n0 = len(probe.events)
         s.stop_training = False
@@ -120,7 +140,7 @@ def session(ctx, spec):
             if ev_first and e["epoch"] % pe == 0:
                 hist.append(v)
             checked = e["epoch"] % ps == 0
-            rule = checked and ref_should_stop(hist, p, tol, crit)
+            rule, border = ref_should_stop(hist, p, tol, crit) if checked else (False, False)
             if checked and len(hist) >= p + 1:
                 evaluated = True
             if not ev_first and e["epoch"] % pe == 0:
@@ -128,7 +148,12 @@ def session(ctx, spec):
             last = (i == len(evs) - 1)
             det = {"epoch": e["epoch"], "history": [list(h) for h in hist[-(p + 2):]], "patience": p, "tol": tol, "criterion": crit,
                    "stopped_at": ran[-1] if stopped else None, "ran": ran}
-            if not last:
+            if border:          # guard band: either decision is accepted here; the rest of the run follows the implementation's choice
+                borderline = True
+                ctx.count("guard_band_decisions")
+                if last and stopped:
+                    want_last = e["epoch"]
+            elif not last:
                 ctx.require("training continues past an epoch only if the documented rule does not hold there (no missed stop)",
                             not rule, case, det)
             else:
@@ -148,8 +173,16 @@ def session(ctx, spec):
     # ---- correspondence with the model
     mod = ctx.get_model().call("c18_es_session", 0 if spec["ev"] == "metric" else 1, ev_first, pe, ps, tol, p,
                                base.codes("variance" if spec.get("deprecated") else spec["crit"]), mfits)
-    ctx.agree_exact("EarlyStopping run vs model", base.canon([0, CRITS.index(crit), impl]), base.canon(mod), case)
-    ctx.case({k: spec[k] for k in ("ev", "order", "pe", "ps", "patience", "tol", "crit", "fits", "tseed", "pattern")}, nontrivial=evaluated)
+    if borderline:
+        base.info(ctx, "session with a guard-band decision vs model", base.canon([0, CRITS.index(crit), impl]) == base.canon(mod))
+    else:
+        ctx.agree_exact("EarlyStopping run vs model", base.canon([0, CRITS.index(crit), impl]), base.canon(mod), case)
+    ctx.case({k: spec.get(k) for k in ("ev", "order", "pe", "ps", "patience", "ptype", "vtype", "tol", "crit", "fits", "tseed", "pattern")},
+             nontrivial=evaluated)
+    ctx.count("vtype:" + spec.get("vtype", "np.float64")); ctx.count("ptype:" + spec.get("ptype", "int"))
+    zero_prev = any(h[0] == 0.0 for h in hist) if crit == "relative" else (any(h[1] == 0.0 for h in hist) if crit == "variance" else False)
+    if zero_prev:
+        ctx.count("zero_in_history:%s:%s" % (crit, spec.get("vtype", "np.float64")))
     ctx.count("crit:" + crit); ctx.count("order:" + spec["order"]); ctx.count("ev:" + spec["ev"]); ctx.count("patience=%d" % p)
     ctx.count("pattern:" + spec["pattern"]); ctx.count("outcome:" + ("stopped" if want_last is not None else "completed"))
     return impl
@@ -165,26 +198,35 @@ def constructor_table(ctx):
     for ki, (kname, mk) in enumerate(kinds):
         for sp in SPELL:
             case = {"session": "constructor", "kind": kname, "criterion": sp}
-            r = base.res(lambda: EarlyStopping(1, 0.1, 2, mk(), "q", criterion=sp), lambda es: CRITS.index(es.criterion))
+            r = base.res(lambda: EarlyStopping(1, 0.1, 2, mk(), "q", criterion=sp), lambda es: 0)
+            raises = r[0] == 1
+            mod_raises = m.call("c18_construct", ki, base.codes(sp))[0] == 1
             n = sp.strip().lower()
-            if kname == "other":
-                want = [1, 3]
-            elif kname == "metric" and n == "variance":
-                want = [1, 3]
-            elif n in CRITS:
-                want = [0, CRITS.index(n)]
-            else:
-                want = [1, 4]
-            ctx.require("constructor: criterion accepted after strip/lower; TypeError for variance + MetricEvaluator and for a "
-                        "non-evaluator; ValueError for an unknown criterion", r == want, case, {"got": r, "want": want})
-            ctx.agree_exact("constructor vs model", base.canon(r), base.canon(m.call("c18_construct", ki, base.codes(sp))), case)
+            if kname == "metric" and n == "variance":
+                ctx.require("the variance criterion is refused for a MetricEvaluator (construction raises)", raises, case, {"got": r})
+                ctx.agree_exact("variance + MetricEvaluator refused: vs model", raises, mod_raises, case)
+            elif kname != "other" and sp in CRITS:
+                ctx.require("a documented criterion name is accepted for the evaluator kinds it is documented for", not raises, case, {"got": r})
+                ctx.agree_exact("documented criterion accepted: vs model", raises, mod_raises, case)
+            else:       # non-evaluators, unknown names, case / white-space variants, exception classes: not in the statement
+                base.info(ctx, "constructor raises-or-constructs outside the statement (%s)" % kname, raises == mod_raises)
+                if raises:
+                    want_cls = 3 if (kname == "other" or (kname == "metric" and n == "variance")) else 4
+                    base.info(ctx, "constructor exception class", r[1] == want_cls)
             ctx.case(case, nontrivial=(kname != "other"))
             ctx.count("constructor:" + kname)
         case = {"session": "constructor", "kind": kname, "deprecated": True}
-        r = base.res(lambda: VarianceBasedEarlyStopping(1, 0.1, 2, mk(), "q"), lambda es: CRITS.index(es.criterion))
-        want = [0, 2] if kname == "observable" else [1, 3]
-        ctx.require("VarianceBasedEarlyStopping == EarlyStopping with the variance criterion", r == want, case, {"got": r, "want": want})
-        ctx.agree_exact("deprecated constructor vs model", base.canon(r), base.canon(m.call("c18_vbes_construct", ki)), case)
+        r = base.res(lambda: VarianceBasedEarlyStopping(1, 0.1, 2, mk(), "q"), lambda es: 0)
+        raises = r[0] == 1
+        mod_raises = m.call("c18_vbes_construct", ki)[0] == 1
+        if kname == "observable":
+            ctx.require("VarianceBasedEarlyStopping constructs for an ObservableEvaluator", not raises, case, {"got": r})
+            ctx.agree_exact("deprecated constructor vs model", raises, mod_raises, case)
+        elif kname == "metric":
+            ctx.require("VarianceBasedEarlyStopping (= variance criterion) is refused for a MetricEvaluator", raises, case, {"got": r})
+            ctx.agree_exact("deprecated constructor vs model", raises, mod_raises, case)
+        else:
+            base.info(ctx, "constructor raises-or-constructs outside the statement (other)", raises == mod_raises)
         ctx.case(case, nontrivial=True)
 
 
@@ -235,16 +277,40 @@ def specs(ctx):
         variances = [float(v) for v in np.round(rng.uniform(0.05, 3, size=7), 2)]
         if rng.random() < 0.2:
             variances[int(rng.integers(7))] = 0.0
+        vtype = ["float", "int", "np.float64", "np.int64"][int(rng.integers(4))]
+        values = pattern(rng, pat)
+        if vtype in ("int", "np.int64"):
+            values = [float(round(4 * v)) for v in values]
+        if rng.random() < 0.25 and vtype in ("float", "np.float64"):      # exact zeros in the float streams of every pattern
+            for j in range(len(values)):
+                if rng.random() < 0.3:
+                    values[j] = 0.0
         out.append({"ev": evk, "order": "ev_first" if rng.random() < 0.6 else "st_first", "pe": pe, "ps": ps, "patience": p,
-                    "crit": spell(rng, crit), "tol": TOLS[int(rng.integers(len(TOLS)))], "values": pattern(rng, pat),
+                    "ptype": ["int", "int", "np.int64", "float"][int(rng.integers(4))], "vtype": vtype,
+                    "crit": spell(rng, crit) if rng.random() < 0.15 else crit, "tol": TOLS[int(rng.integers(len(TOLS)))], "values": values,
                     "variances": variances, "fits": fits, "pattern": pat,
                     "state": ["positive", "positive", "complex", "dm"][int(rng.integers(4))] if ctx.thorough or i % 7 == 0 else "positive",
                     "tseed": int(rng.integers(1 << 30))})
     # the input of the repaired defect: patience 1, values 5,3,1,1,...; absolute; tol 0.05
-    out.append({"ev": "metric", "order": "ev_first", "pe": 1, "ps": 1, "patience": 1, "crit": "absolute", "tol": 0.05,
-                "values": [5.0, 3.0, 1.0, 1.0, 1.0, 1.0], "variances": [1.0], "fits": [(1, 6)], "pattern": "defect-input",
-                "state": "positive", "tseed": 5})
-    return out
+    fixed = [{"ev": "metric", "order": "ev_first", "pe": 1, "ps": 1, "patience": 1, "crit": "absolute", "tol": 0.05, "vtype": "float",
+              "values": [5.0, 3.0, 1.0, 1.0, 1.0, 1.0], "variances": [1.0], "fits": [(1, 6)], "pattern": "defect-input-lookback",
+              "state": "positive", "tseed": 5}]
+    # the inputs of the repaired division defect: an earlier value of exactly zero under `relative`, in every numeric type
+    for vt in ("float", "int", "np.float64", "np.int64"):
+        for order in ("ev_first", "st_first"):
+            fixed.append({"ev": "metric", "order": order, "pe": 1, "ps": 1, "patience": 1, "crit": "relative", "tol": 0.05, "vtype": vt,
+                          "values": [3.0, 0.0, 0.0, 0.0, 1.0, 1.0, 1.0], "variances": [1.0], "fits": [(1, 7)],
+                          "pattern": "defect-input-zero", "state": "positive", "tseed": 6})
+        fixed.append({"ev": "observable", "order": "ev_first", "pe": 1, "ps": 1, "patience": 2, "crit": "relative", "tol": 0.3, "vtype": vt,
+                      "values": [2.0, 0.0, 0.0, 0.0, 0.0, 1.0, 1.0, 1.0], "variances": [1.0, 0.0], "fits": [(1, 8)],
+                      "pattern": "defect-input-zero", "state": "positive", "tseed": 7})
+        fixed.append({"ev": "observable", "order": "st_first", "pe": 1, "ps": 1, "patience": 1, "crit": "variance", "tol": 2.0, "vtype": vt,
+                      "values": [2.0, 2.0, 1.0, 1.0, 1.0, 1.0], "variances": [0.0, 0.0, 1.0], "fits": [(1, 6)],
+                      "pattern": "defect-input-zero", "state": "positive", "tseed": 8})
+    return fixed + out
+
+
+MIN_SESSIONS = 60
 
 
 def run(ctx):
@@ -252,20 +318,32 @@ def run(ctx):
     budget = 400 if ctx.thorough else 45
     constructor_table(ctx)
     sp = specs(ctx)
-    for spec in sp:
-        if time.time() - t0 > budget:
-            ctx.count("skipped_time_budget")
-            continue
-        session(ctx, json.loads(json.dumps(spec)))
-    # the deprecated class behaves as EarlyStopping(criterion="variance"): identical sessions, one with each class
+    # the deprecated class behaves as EarlyStopping(criterion="variance"): identical sessions, one with each class (run first)
     k = 0
     for spec in sp:
-        if spec["ev"] == "observable" and k < (40 if ctx.thorough else 8):
+        if spec["ev"] == "observable" and spec["pattern"] != "defect-input-zero" and k < (40 if ctx.thorough else 8):
             k += 1
             a = session(ctx, json.loads(json.dumps(dict(spec, crit="variance"))))
             b = session(ctx, json.loads(json.dumps(dict(spec, crit="variance", deprecated=True))))
             ctx.require("VarianceBasedEarlyStopping run == EarlyStopping(criterion='variance') run", a == b and a is not None,
                         {"session": "deprecated-vs-variance", "spec": dict(spec, crit="variance", deprecated=True)}, {"variance": a, "deprecated": b})
+    ctx.count("deprecated_pairs_executed", k)
+    done = skipped = 0
+    for spec in sp:
+        if time.time() - t0 > budget and done >= MIN_SESSIONS:
+            skipped += 1
+            continue
+        session(ctx, json.loads(json.dumps(spec)))
+        done += 1
+    ctx.count("sessions_executed", done)
+    if skipped:
+        ctx.count("skipped_time_budget", skipped)
+        ctx.extra["skipped_by_time_budget"] = skipped
+        note = "time budget reached: %d of %d generated sessions skipped (the generator mixes all kinds uniformly; fixed inputs run first)" % (skipped, len(sp))
+        if note not in ASSUMPTIONS:
+            ASSUMPTIONS.append(note)
+    if done == 0 or k == 0:
+        ctx.disagreements.append({"what": "coverage: no early-stopping session / no deprecated-class pair was executed", "case": {}, "detail": ""})
 
 
 def search(ctx, broken, budget):
